@@ -16,7 +16,7 @@ import (
 // must sit in a scanner library-length helper (reached only after a byte was consumed:
 // rule S1d checks that on the automaton).
 func RuleU1(c *Ctx) {
-	sc := c.Run.Begin("U1", "every unsigned conversion of len(x)-K is dominated by a test that the length is at least K (scanner length helpers: discharged on the automaton, S1d)", 2)
+	sc := c.Run.Begin("U1", "every unsigned conversion of len(x)-K is dominated by a test that the length is at least K (scanner length helpers: discharged on the automaton, S1d)", 1)
 	defer sc.End()
 	m, _, merr := c.Machine()
 	counts := map[string]int{}
@@ -274,7 +274,7 @@ func lenFactR(info *types.Info, fa cfgx.Fact, resolve func(ast.Expr) ast.Expr) (
 // slipped in between (Unquote, a trim) can empty the value and turns the index into a
 // panic on a document such as `INCLUDE ""`.
 func RuleIX1(c *Ctx) {
-	sc := c.Run.Begin("IX1", "every string/byte-slice parameter that is indexed at a fixed end without a length test in the function receives, at every static call site, a value that is non-empty by construction (raw lexeme value, constant-length slice, literal, tested value)", 2)
+	sc := c.Run.Begin("IX1", "every string/byte-slice parameter that is indexed at a fixed end without a length test in the function receives, at every static call site, a value that is non-empty by construction (raw lexeme value, constant-length slice, literal, tested value)", 1)
 	defer sc.End()
 	lexT := c.Named("scanner", "Lexeme")
 	perFn := map[*ast.FuncDecl]int{}
@@ -445,7 +445,13 @@ func RuleIX1(c *Ctx) {
 					return true
 				}
 				if ok, why := nonEmptyArg(cs, cs.Call.Args[pidx], 0); !ok {
-					sc.Violation(key, c.P.Pos(ix.Pos()), fmt.Sprintf("%s is indexed at a fixed end without a length test, and a caller can pass an empty value: %s - an index-out-of-range panic instead of a diagnostic", types.ExprString(ix), why))
+					// only what is positively known to be able to empty a value is reported:
+					// a scanner lexeme's value that went through a transformation
+					if transformedLexemeValue(cs, cs.Call.Args[pidx], lexT, c) {
+						sc.Violation(key, c.P.Pos(ix.Pos()), fmt.Sprintf("%s is indexed at a fixed end without a length test, and a caller can pass an empty value: %s - an index-out-of-range panic instead of a diagnostic", types.ExprString(ix), why))
+					} else {
+						sc.Info(key, c.P.Pos(ix.Pos()), "not decided: "+why)
+					}
 					return true
 				}
 			}
@@ -517,4 +523,39 @@ func asksLibLength(info *types.Info, fd *ast.FuncDecl, isLibLen func(*types.Func
 		return true
 	})
 	return hit
+}
+
+// transformedLexemeValue: the argument is the value of a scanner lexeme that went through at
+// least one method other than the accessors Value()/String() (Unquote, a trim, a slice).
+func transformedLexemeValue(cs callSite, arg ast.Expr, lexT *types.Named, c *Ctx) bool {
+	info := cs.Pk.TypesInfo
+	cf := c.CFG(cs.Pk, cs.Body)
+	e := ast.Unparen(cf.Resolve(arg))
+	transformed := false
+	for depth := 0; depth < 8; depth++ {
+		call, ok := e.(*ast.CallExpr)
+		if !ok {
+			return false
+		}
+		if tv, isT := info.Types[call.Fun]; isT && tv.IsType() && len(call.Args) == 1 {
+			e = ast.Unparen(cf.Resolve(call.Args[0]))
+			continue
+		}
+		f := Callee(info, call)
+		if f == nil {
+			return false
+		}
+		if f.Name() == "Value" && lexT != nil && recvNamedOf(f) == lexT {
+			return transformed
+		}
+		if f.Name() != "String" {
+			transformed = true
+		}
+		r := Recv(call)
+		if r == nil {
+			return false
+		}
+		e = ast.Unparen(cf.Resolve(r))
+	}
+	return false
 }
